@@ -50,6 +50,18 @@ TRANSFORMS = {"sum": "sum", "demean": lambda x: x - x.mean(), "cummax": "cummax"
 TRANSFORM_OPS = (("transform", (("f", "sum"),)), ("transform", (("f", "demean"),)), ("shift", (("periods", 1),)), ("shift", (("periods", -1),)),
                  ("ffill", ()), ("bfill", ()))
 CUM_OPS = ("cumsum", "cumprod", "cumcount")
+APPLY_FUNCS = {"range_a": lambda g: g.a.max() - g.a.min(), "sum_f": lambda g: g.f.sum()}
+# F: depth-2 programs -- a step that hash-partitions the WHOLE frame on K1, then a shuffle-based (UDF style) groupby operation on K2
+F_COLS = ["g", "k3", "a", "f"]
+F_KEYS = (("g",), ("g", "k3"))  # K1 x K2 covers K2 == K1, K2 strict subset of K1, K2 strict superset of K1
+F_PRIORS = ("shuffle", "merge")
+# (op, opkw, cfg, order sensitive): only operations whose result does not depend on the row order inside a group
+F_OPS = (
+    ("transform", (("f", "sum"),), (), False), ("transform", (("f", "sum"),), (("shuffle_method", "tasks"),), False),
+    ("transform", (("f", "demean"),), (), False), ("transform", (("f", "demean"),), (("shuffle_method", "tasks"),), False),
+    ("apply", (("f", "range_a"),), (), False), ("apply", (("f", "sum_f"),), (("shuffle_method", "tasks"),), False),
+    ("median", (), (), False), ("median", (), (("shuffle_method", "tasks"),), False),
+)  # shift/ffill/bfill are not enumerated here: after an explicit shuffle the row order inside a group is no longer pandas' order
 SPLIT_CFGS = ((), (("split_out", 2), ("shuffle_method", "tasks")), (("split_out", 2), ("shuffle_method", "disk")),
               (("split_out", 3), ("shuffle_method", "tasks")), (("split_out", True), ("shuffle_method", "tasks")),
               (("split_out", True), ("shuffle_method", "disk")))
@@ -66,13 +78,16 @@ def RULE(tier):
             "(split_out, shuffle_method) in {1,(2,tasks),(2,disk),(3,tasks),(True,tasks),(True,disk)} x P4 (+ split_every=2). "
             "C: 9 agg specs (str, lists, dicts, named) x 4 keys x P, and x sort x split_out {1,2} x P4. "
             "D: cumsum/cumprod/cumcount x 8 keys x {frame, column} x P. "
-            "E: transform(sum, lambda)/shift(+-1)/ffill/bfill x keys {column, two columns, NA key, index} x shuffle_method {default,tasks,disk} x 10 partitionings."
+            "E: transform(sum, lambda)/shift(+-1)/ffill/bfill x keys {column, two columns, NA key, index} x shuffle_method {default,tasks,disk} x 10 partitionings. "
+            "F (depth 2): {shuffle(K1), hash merge on K1} of the whole frame, then transform(sum, lambda)/apply(2 UDFs)/median x shuffle_method "
+            "{default,tasks} grouped by K2, for K1, K2 in {[g], [g,k3]} (K2 equal / strict subset / strict superset of K1), "
+            "no projection in between, x 13 partitionings with >= 2 partitions."
         )
     else:
         scope = (
             f"P = every split of the {n} rows into <= 4 partitions incl. empty ones (120); P12 = 12 partitionings with 1-4 partitions. "
             "A as quick x P (all 8 key kinds for SeriesGroupBy too); B: all 15+12 aggregations x 6 key/NA/categorical variants x sort x 6 "
-            "(split_out, shuffle) x split_every {None,2} x P12; C x P and x sort x split_out {1,2,True} x P12; D x P; E x 8 keys x P(<=3 partitions)."
+            "(split_out, shuffle) x split_every {None,2} x P12; C x P and x sort x split_out {1,2,True} x P12; D x P; E x 8 keys x P(<=3 partitions); F as quick x every partitioning with 2-4 partitions."
         )
     return (
         f"frame of {n} rows: keys g (3 groups), k2 (str), kn (float with NaN), kc (categorical with an unused category), h (all distinct), named "
@@ -92,6 +107,7 @@ def frame(seed, nrows):
         pdf = pd.DataFrame({
             "g": cut([0, 1, 0, 2, 1, 0][:nrows]),
             "k2": cut(["x", "y", "y", "x", "y", "x"][:nrows]),
+            "k3": cut([0, 1, 1, 0, 1, 0][:nrows]),  # numeric twin of k2 (sweep F: whole-frame UDF ops must not see a str column)
             "kn": cut([1.0, np.nan, 1.0, 2.0, np.nan, 2.0][:nrows]),
             "kc": pd.Categorical(cut(["p", "q", "p", "r", "q", "p"][:nrows]), categories=["p", "q", "r", "unused"]),
             "h": cut([10, 11, 12, 13, 14, 15][:nrows]),
@@ -123,6 +139,12 @@ def resolve_by(full, by):
             out.append(b)
     cols = key_columns(by) + ["a", "f"]
     return cols, (out if isinstance(by, tuple) else out[0])
+
+
+def frame_right(k1):
+    """right side of the sweep-F hash join: every key combination of K1 once, one extra column"""
+    full = frame(0, 6)
+    return full[k1].drop_duplicates().reset_index(drop=True).assign(w=1.5)
 
 
 # ------------------------------------------------------------------ enumeration
@@ -204,6 +226,19 @@ def programs(tier):
             for sm in (None, "tasks", "disk"):
                 for parts in PE:
                     out.append(("E", by, None, op, opkw, (), parts, () if sm is None else (("shuffle_method", sm),)))
+    # F: prior partitioning step on K1, then UDF-style op on K2 over the whole frame (no projection in between)
+    if quick:
+        PF = [q for q in dfh.partitionings(n, 2, zeros=True) if len(q) == 2] + [q for q in dfh.partitionings(n, 3, zeros=False) if len(q) == 3] + [(0, 3, n - 3)]
+    else:
+        PF = [q for q in dfh.partitionings(n, 4, zeros=True) if len(q) >= 2]
+    for prior in F_PRIORS:
+        for k1 in F_KEYS:
+            for k2 in F_KEYS:
+                for op, opkw, cfg, order_sensitive in F_OPS:
+                    if order_sensitive and prior == "merge":
+                        continue  # a hash join promises no row order, shift/ffill results would not be comparable
+                    for parts in PF:
+                        out.append(("F", k2 if len(k2) > 1 else k2[0], None, op, opkw + (("k1", k1), ("prior", prior)), (), parts, cfg))
     return list(dict.fromkeys(out))
 
 
@@ -219,14 +254,26 @@ def cases_of(shard, tier):
 # ------------------------------------------------------------------ evaluation
 def call(full, case, is_dask):
     sweep, by, sel, op, opkw, gbkw, parts, cfg = case
-    cols, by_arg = resolve_by(full, by)
-    obj = full[cols]
+    k = dict(opkw)
+    if sweep == "F":
+        obj, k1 = full[F_COLS], list(k.pop("k1"))
+        if k.pop("prior") == "shuffle":
+            if is_dask:
+                obj = obj.shuffle(k1, shuffle_method=dict(cfg).get("shuffle_method"))
+        else:
+            right = frame_right(k1)
+            obj = obj.merge(dfh.dd.from_pandas(right, npartitions=2), on=k1, shuffle_method="tasks", broadcast=False) if is_dask else obj.merge(right, on=k1)
+        by_arg = list(by) if isinstance(by, tuple) else by
+    else:
+        cols, by_arg = resolve_by(full, by)
+        obj = full[cols]
     gb = obj.groupby(by_arg, **dict(gbkw))
     if sel is not None:
         gb = gb[list(sel) if isinstance(sel, tuple) else sel]
-    k = dict(opkw)
     ck = dict(cfg) if is_dask else {}
-    if op == "agg":
+    if op == "apply":
+        r = gb.apply(APPLY_FUNCS[k["f"]], **ck)
+    elif op == "agg":
         spec = AGG_SPECS[k["spec"]]
         if isinstance(spec, tuple):
             r = gb.agg(**{name: pd.NamedAgg(column=c, aggfunc=f) for name, (c, f) in spec}, **ck)
@@ -247,7 +294,7 @@ _REF = {}
 def reference(case, seed):
     sweep, by, sel, op, opkw, gbkw, parts, cfg = case
     nrows = sum(parts)
-    key = (seed, nrows, by, sel, op, opkw, gbkw)
+    key = (seed, nrows, sweep, by, sel, op, opkw, gbkw)
     if key not in _REF:
         if len(_REF) > 4096:
             _REF.clear()
@@ -269,9 +316,17 @@ def order_promised(case):
     return False
 
 
-def compare(got, want, ordered, nrows):
+def _row_reprs(x):
+    rows = x.astype(object).itertuples(index=False, name=None) if isinstance(x, pd.DataFrame) else x.tolist()
+    return [repr(tuple("~" if pd.isna(v) else v for v in r) if isinstance(r, tuple) else ("~" if pd.isna(r) else r)) for r in rows]
+
+
+def compare(got, want, ordered, nrows, ignore_index=False):
     """-> None | (failure class, text)"""
     rtol = 1e-9 * max(nrows, 1)
+    if ignore_index and isinstance(got, (pd.Series, pd.DataFrame)) and isinstance(want, (pd.Series, pd.DataFrame)):
+        # a merge promises no index: rows are compared as a plain multiset (sorted by content, index dropped)
+        got, want = (x.iloc[sorted(range(len(x)), key=lambda i, b=_row_reprs(x): b[i])].reset_index(drop=True) for x in (got, want))
     got, want = _plain_index(got), _plain_index(want)
     if type(got) is not type(want):
         return "wrong-value", f"type {type(got).__name__} != {type(want).__name__}"
@@ -360,7 +415,7 @@ def known_class(case, failure, pdf):
     if op == "size" and so_gt1 and failure == "wrong-value":
         return ("size", "split-out-name")
     if failure == "wrong-value" and disk and (
-        op in ("shift", "ffill", "bfill", "transform") or (so_gt1 and (op in ("first", "last") or spec in FIRSTLAST_SPECS))
+        (op in ("shift", "ffill", "bfill") and sweep == "E") or (so_gt1 and (op in ("first", "last") or spec in FIRSTLAST_SPECS))
     ):
         return ("shuffle-disk", "row-order")
     if op in ("idxmin", "idxmax") and failure == "dask-raises:ValueError" and uses_f and _allna_group_in_partition(pdf, by, parts):
@@ -386,6 +441,8 @@ def finding_key(case, failure, pdf):
     sweep, by, sel, op, opkw, gbkw, parts, cfg = case
     cls = known_class(case, failure, pdf)
     opn = op if op != "agg" else "agg-" + dict(opkw)["spec"]
+    if sweep == "F":
+        opn = f"{op}-after-{dict(opkw)['prior']}"
     tk = "series" if isinstance(sel, str) else "df"
     if cls:
         return f"{cls[0]}:{failure}:{cls[1]}"
@@ -409,7 +466,7 @@ def run_case(case, ctx):
         raise
     except Exception as e:  # noqa: BLE001
         got, exc = None, e
-    ctx.case(case, nontrivial=spans_partitions(pdf, by, parts), outcome=(op, type(want).__name__, want.shape, type(exc).__name__))
+    ctx.case(case, nontrivial=(sum(1 for q in parts if q) >= 2) if sweep == "F" else spans_partitions(pdf, by, parts), outcome=(op, type(want).__name__, want.shape, type(exc).__name__))
     if exc is not None:
         cls = dfh.classify_exc(exc)
         if isinstance(exc, ValueError) and "Grouping by an unaligned column is unsafe" in str(exc):
@@ -419,7 +476,8 @@ def run_case(case, ctx):
             return
         ctx.violation(finding_key(case, f"dask-raises:{type(exc).__name__}", pdf), case, f"dask raised {exc!r}; pandas gives {want!r}")
         return
-    bad = compare(got, want, order_promised(case), nrows)
+    row_shaped_after_merge = sweep == "F" and dict(opkw)["prior"] == "merge" and op == "transform"
+    bad = compare(got, want, order_promised(case), nrows, ignore_index=row_shaped_after_merge)
     if bad:
         ctx.violation(finding_key(case, bad[0], pdf), case, f"{bad[1]} | got {got!r} | want {want!r}")
 
